@@ -176,6 +176,15 @@ def ctor_oracle(kind, na, nv, nd, ni, lb, ub, res):
     if [unkey(k) for k in res['space_lb']] != [float(v) for v in lb] or [unkey(k) for k in res['space_ub']] != [float(v) for v in ub]:
         return 'the space\'s bounds %r / %r differ from the declared bounds %r / %r' % (
             [unkey(k) for k in res['space_lb']], [unkey(k) for k in res['space_ub']], list(lb), list(ub))
+    # a tree space also places its terminals (the constants of the expressions) in the declared box, with the box as their bounds
+    for ti, a in enumerate(res.get('terminals', [])):
+        if [unkey(k) for k in a['lb']] != list(lb) or [unkey(k) for k in a['ub']] != list(ub):
+            return 'terminal %d carries bounds %r / %r instead of the declared %r / %r' % (ti, [unkey(k) for k in a['lb']], [unkey(k) for k in a['ub']], list(lb), list(ub))
+        for j, row in enumerate(a['pos']):
+            for k in row:
+                x = unkey(k)
+                if not (lb[j] <= x <= ub[j]):
+                    return 'initial coordinate %r of terminal %d outside [%r, %r]' % (x, ti, lb[j], ub[j])
     for a, shp in zip(res['agents'], res['shapes']):
         if shp != [int(nv), int(nd)]:
             return 'shape %r' % shp
@@ -200,7 +209,8 @@ def ctor_build(kind, na, nv, nd, ni, lb, ub):
         else:
             s = TreeSpace(n_trees=na, n_terminals=2, n_variables=nv, n_iterations=ni, min_depth=1, max_depth=2,
                           functions=['SUM'], lower_bound=lb, upper_bound=ub)
-        return {'agents': [{'pos': keys2d(a.position), 'lb': keys2d(a.lb), 'ub': keys2d(a.ub)} for a in s.agents],
+        return {'terminals': [{'pos': keys2d(a.position), 'lb': keys2d(a.lb), 'ub': keys2d(a.ub)} for a in getattr(s, 'terminals', [])],
+                'agents': [{'pos': keys2d(a.position), 'lb': keys2d(a.lb), 'ub': keys2d(a.ub)} for a in s.agents],
                 'space_lb': keys2d(s.lb), 'space_ub': keys2d(s.ub), 'n_agents': len(s.agents),
                 'best_distinct': all(s.best_agent is not a and not np.shares_memory(s.best_agent.position, a.position) for a in s.agents),
                 'shapes': [list(a.position.shape) for a in s.agents]}
